@@ -142,6 +142,13 @@ def classify(case, res):
     if status == "partial-change":
         return ("%s/partial-change-after-error/%s" % (PROP, kind),
                 "the path matches nothing and cannot be created: an error was raised but merger.data changed", case)
+    if case.get("rules") and not rule_cfg_rules(case) and judge(dict(case, rules=None))["status"] == "pass":
+        # every [rules] entry names a node OUTSIDE the merge point, yet it changes what the merge does
+        mp = case["mergeat"].rstrip("/")
+        how = "sibling-whose-name-extends-the-target" if all(k.startswith(mp) for k in case["rules"]) else "elsewhere-in-the-document"
+        return ("%s/rule-for-a-path-outside-the-merge-point-takes-effect/%s" % (PROP, how),
+                "a [rules] entry naming a node that does not lie at or below the merge point governs a node below it "
+                "(the rule path is re-based on the merge point although the merge point is no prefix of it)", case)
     # minimal set of non-default policies
     c = dict(case, args=dict(case["args"]))
     for o in OPTS:
@@ -367,6 +374,22 @@ def work(chunk, seed, polmode, k, with_rules):
     return col.result(internal=True, cpu_s=time.process_time() - t0)
 
 
+def hand_rule_cases():
+    """[rules] entries that name nodes OUTSIDE the merge point: they must not govern anything below it."""
+    out = []
+    base = {"args": {}, "mergeat": "/a", "targets": [["a"]], "create": None, "pathkind": "existing-single"}
+    for lhs, rhs, rules in (
+            ("{a: {b: [1]}, ab: {b: [1]}}", "{b: [2]}", {"/ab": "left"}),              # /a is no prefix of /ab
+            ("{a: {b: [1]}, ab: {b: [1]}}", "{b: [2]}", {"/ab": "right"}),
+            ("{a: {b: {x: 1}}, ab: 2}", "{b: {x: 2}}", {"/ab": "left"}),
+            ("{a: {b: [1]}, b: [1]}", "{b: [2]}", {"/b": "left"}),                     # a top-level node with the same name
+            ("{a: {b: [1]}, c: {b: [1]}}", "{c: {b: [2]}}", {"/c/b": "left"}),
+            ("{a: {b: [1]}, ab: {b: [1]}}", "{b: [2]}", {"/a/b": "left"}),             # control: a rule below the merge point
+    ):
+        out.append(dict(base, lhs=lhs, rhs=rhs, rules=rules))
+    return out
+
+
 def run(tier="quick", seed=0, jobs=None):
     p = pools()
     for t, text in zip(p["left"] + p["right"], p["left_text"] + p["right_text"]):
@@ -405,6 +428,8 @@ def run(tier="quick", seed=0, jobs=None):
             col.merge(r)
             cpu += r["cpu_s"]
         info.append({"stage": name, "pairs": len(items), "cases": col.evaluations - before, "cpu_s": round(cpu, 1)})
+    for case in hand_rule_cases():
+        eval_case(col, case)
     kinds = sorted({s["pathkind"] for specs in p["specs"] for s in specs})
     bounds = {
         "left": "rtc.gen.trees(4, 3, keys=(a,b), scalars=(null,1,'a')) = %d documents + %d curated" % (nl - len(cur_l), len(cur_l)),
@@ -413,7 +438,8 @@ def run(tier="quick", seed=0, jobs=None):
                  "have `a` ; /zz, /zz/yy, /k/zz missing ; /k/zz below a scalar or an Array, [a=zz] (not creatable)",
         "path kinds": kinds,
         "policies": "quick: default + sampled of the 180; thorough: 12 axis policies on everything, sampled/all 180 on parts",
-        "rules": "one [rules] entry on a right-hand container, written below the merge point or naming the merge point itself, single-target paths",
+        "rules": "one [rules] entry on a right-hand container, written below the merge point or naming the merge point itself, single-target paths; "
+                 "%d hand cases with a rule naming a node outside the merge point (a sibling whose name extends the target's, a node elsewhere)" % (len(hand_rule_cases()) - 1),
         "stages": info, "tier": tier, "seed": seed,
     }
     rule = ("merge_with under args.mergeat raises only MergeException/YAMLPathException; the result equals the left document with "
